@@ -26,7 +26,7 @@ CLAIMS = {
                      'The log-shape invariants are also proved inductive over unbounded integers by Apalache (OutputOracleInd.tla, logs up to 4 outputs) and for logs of any length by a TLAPS proof (OutputOracleProof.tla).' + E3, note=COMMON_NOTE),
     'C18': dict(text='Replicas.tla states determinism as agreement of K replicas applying one log (checked by TLC, and shown to fail for a deliberately non-deterministic Apply in the selftest). '
                      'Histories are behaviours of the other specifications: random paths through the transition graphs TLC emits for the validator-set, plan, oracle, L2 deposit and L1 families '
-                     '(multi-removal blocks, plans over several validators, oracle aggregation, genesis round trips); each path runs on 4 (quick) / 8 (thorough) fresh instances, every log position '
+                     '(multi-removal blocks, plans over several validators, oracle aggregation, genesis round trips); each path runs on 4 (quick) / 8 (thorough) fresh instances - every second one a node that first executes each event speculatively on a store branch it then abandons, sharing what the process keeps in memory (plan registry, keeper-level caches) -, every log position '
                      'records a hash of the raw key/value dump of every module store and a hash of result, error text, response bytes, ordered events and ordered validator updates per replica, and '
                      'TLC checks Agreement on the recorded trace.', technique='TLA+ replication spec checked by TLC; recorded multi-replica traces of spec behaviours validated by TLC',
                 note='Non-determinism is only seen if it manifests in the K runs (Go randomises map iteration per range loop, so a 3-element map order differs between two runs with probability 5/6). Fresh instances share one process.'),
